@@ -21,6 +21,16 @@ Definition zbytes (b : list byte) : list Z := map (fun x => Z.of_N (bn x)) b.
 Definition accept (l : layout) (r : row) (jobj : bool) : bool :=
   wf_row l r && (negb (l_json_object l) || jobj).
 
+(* sign() of a freshly built row accepts it: the checks of verify(), except that the size bound is
+   evaluated before the signature field is filled in (when the source does so) *)
+Definition body_len (l : layout) (r : row) : N := N.of_nat (length (enc_fields (l_fields l) r)).
+Definition sign_accept (l : layout) (r : row) (jobj : bool) : bool :=
+  wf_fields (l_fields l) r && (negb (l_json_object l) || jobj) &&
+  match l_maxlen l with
+  | Some m => (body_len l r + (if sign_size_excludes_signature then 0 else sig_len) <=? m)%N
+  | None => true
+  end.
+
 Definition challenge_of (Hf : list byte -> list byte) (l : layout) (r : row) (c : option (list byte)) : list byte :=
   match c with Some b => b | None => Hf (enc l r) end.
 
@@ -29,14 +39,15 @@ Definition run_C06_gen (Hf : list byte -> list byte) (c : c06case) : list Z :=
   match c with
   | CRow k r j =>
       match layout_of k with
-      | Some l => zbytes (Hf (enc l r)) ++ [zb (accept l r j); zb (accept l r j)]
+      | Some l => zbytes (Hf (enc l r)) ++ [zb (sign_accept l r j); zb (sign_accept l r j && accept l r j)]
       | None => []
       end
   | CPair k1 r1 j1 k2 r2 j2 =>
       match layout_of k1, layout_of k2 with
       | Some l1, Some l2 =>
           let same := bytes_eqb (Hf (enc l1 r1)) (Hf (enc l2 r2)) in
-          [zb (accept l1 r1 j1); zb (accept l2 r2 j2 && same); zb same]
+          let signed := sign_accept l1 r1 j1 in   (* otherwise there is no signature to move *)
+          [zb (signed && accept l1 r1 j1); zb (signed && accept l2 r2 j2 && same); zb same]
       | _, _ => []
       end
   | COracle k r j c =>
@@ -54,7 +65,7 @@ Definition spec_C06 (c : c06case) (obs : list Z) : bool :=
   | CRow _ _ _ =>
       (* observation = digest, sign-ok, verify-ok: a row that sign() accepted verifies as stored *)
       match rev obs with
-      | v :: s :: _ => Nat.eqb (length obs) 34 && (negb (Z.eqb s 1) || Z.eqb v 1)
+      | v :: s :: _ => negb (Z.eqb s 1) || Z.eqb v 1
       | _ => false
       end
   | CPair k1 r1 _ k2 r2 _ =>
@@ -73,8 +84,10 @@ Definition spec_C06 (c : c06case) (obs : list Z) : bool :=
    1  same kind, but the two rows differ in shape: an optional field is present in one and absent in
       the other, or bytes moved across the boundary of two fields (unseparated concatenation)
    2  rows of two different kinds (no kind separation in the digest)
-   3  identity challenge equal to the digest of a row (raw signing oracle) *)
-Definition known_C06 (c : c06case) : list Z :=
+   3  identity challenge equal to the digest of a row (raw signing oracle)
+   4  a reference whose fields fit the size bound but not together with the 64 signature bytes:
+      sign() accepts it, verify() refuses it *)
+Definition known_C06_gen (Hf : list byte -> list byte) (c : c06case) : list Z :=
   match c with
   | CPair k1 r1 _ k2 r2 _ =>
       if negb (N.eqb k1 k2) then [2]
@@ -84,10 +97,29 @@ Definition known_C06 (c : c06case) : list Z :=
            end
   | COracle k r _ c =>
       match layout_of k with
-      | Some l => if bytes_eqb (challenge_of blake3 l r c) (blake3 (enc l r)) then [3] else []
+      | Some l => if bytes_eqb (challenge_of Hf l r c) (Hf (enc l r)) then [3] else []
+      | None => []
+      end
+  | CRow k r _ =>
+      match layout_of k with
+      | Some l => match l_maxlen l with
+                  | Some m => if (m <? body_len l r + sig_len)%N && (body_len l r <=? m)%N then [4] else []
+                  | None => []
+                  end
       | None => []
       end
   | _ => []
+  end.
+Definition known_C06 : c06case -> list Z := known_C06_gen blake3.
+
+(* the kinds named by the case exist *)
+Definition case_ok (c : c06case) : bool :=
+  let ok k := match layout_of k with Some _ => true | None => false end in
+  match c with
+  | CRow k _ _ => ok k
+  | CPair k1 _ _ k2 _ _ => ok k1 && ok k2
+  | COracle k _ _ _ => ok k
+  | CUtf8 _ => true
   end.
 
 Definition eval_C06 (c : c06case) (obs : list Z) : list Z :=
